@@ -43,4 +43,10 @@ CLAIMS["C09"] = {
   "technique": "Coq proof (exact output of the unstructure template; round trip via the structure specification) + differential correspondence + direct oracle",
   "design_ref": "DESIGN.md 5/C09"}
 
+CLAIMS["C20"] = {
+  "text": "Theorems of Props/C20.v over Model/FieldConv.v (the handler choice of find_structure_handler at generation time and of _structure_attribute at call time): C20_generated_follows_rule and C20_interpretive_follows_rule (the structured value is K(hook(raw)) when a hook exists for T, K(raw) when the field is untyped or no hook can be found, always K(raw) under prefer_attrib_converters; fields without a converter unaffected), C20_agree_partial (Converter and BaseConverter agree) and C20_refuted_lazy (they do not for container hooks that fail lazily = known finding F15, reported as KNOWN-FINDING). The decision domain is finite, so the theorems are closed by complete case analysis, and the tie to the code is an EXHAUSTIVE correspondence run: every cell of the domain x class shapes x {Converter, BaseConverter} x validation mode x strategy is executed on the real library and compared with the model inside Coq on every run.",
+  "note": "Trusted: Coq kernel; the correspondence harness. The model is hand-written (not generated from the AST): an edit to gen/_shared.py or converters.py _structure_attribute that changes a cell is caught by the exhaustive run, not by a broken proof.",
+  "technique": "Coq proof by complete case analysis + exhaustive differential correspondence over the finite decision domain",
+  "design_ref": "DESIGN.md 5/C20"}
+
 NOT_APPLICABLE = {}
